@@ -53,22 +53,22 @@ pub struct FV(pub u64);
 
 impl fmt::Debug for FK {
     fn fmt(&self, f: &mut fmt::Formatter<'_>) -> fmt::Result {
-        write!(f, "k{}", self.0)
+        crate::payload::pad_id(f, b'k', self.0)
     }
 }
 impl fmt::Debug for FV {
     fn fmt(&self, f: &mut fmt::Formatter<'_>) -> fmt::Result {
-        write!(f, "v{}", self.0)
+        crate::payload::pad_id(f, b'v', self.0)
     }
 }
 impl fmt::Display for FK {
     fn fmt(&self, f: &mut fmt::Formatter<'_>) -> fmt::Result {
-        write!(f, "K{}", self.0)
+        crate::payload::pad_id(f, b'K', self.0)
     }
 }
 impl fmt::Display for FV {
     fn fmt(&self, f: &mut fmt::Formatter<'_>) -> fmt::Result {
-        write!(f, "V{}", self.0)
+        crate::payload::pad_id(f, b'V', self.0)
     }
 }
 
